@@ -305,8 +305,9 @@ def upload_view(drv):
     info = drv.info
     progs = [{"name": c(k), "routines": [c(r) for r in (v.get("routines") or [])]} for k, v in sorted(info.get("programs", {}).items())]
     try:
+        before = repr(drv.data_types) + repr(drv.tags)
         json.dumps(drv.tags_json)
-        js = 1
+        js = 1 if repr(drv.data_types) + repr(drv.tags) == before else 0       # serialisable, and a pure function of the definitions
     except Exception:
         js = 0
     keep = ("vendor", "product_type", "product_code", "revision", "status", "serial", "product_name")
